@@ -282,8 +282,17 @@ def _compose(draw, total, parts):
 
 @st.composite
 def column(draw, name, n):
-    mode = draw(st.sampled_from(['free', 'free', 'maj', 'maj', 'neg', 'neg', 'single']))
-    if mode == 'single' or n == 1:
+    mode = draw(st.sampled_from(['free', 'free', 'maj', 'maj', 'neg', 'neg', 'single', 'band']))
+    band = [c for c in range(1, n) if 3 * n < 4 * c and 5 * c < 4 * n]       # counts strictly between 75 % and 80 % of the rows
+    if mode == 'band' and not band:
+        mode = 'maj'
+    if mode == 'band':
+        # one value (often the empty cell / a zero) holds a share strictly between the two thresholds of the keep/drop rule
+        top = draw(st.sampled_from(band))
+        rest = draw(_compose(n - top, draw(st.integers(1, 5))))
+        counts = [top] + rest
+        vals = [draw(st.one_of(st.sampled_from(['', '', '0', '""']), _NUM))] + [draw(_NUM) for _ in rest]
+    elif mode == 'single' or n == 1:
         vals, counts = [draw(_NUM)], [n]
     elif mode == 'free':
         k = draw(st.integers(2, 8))
